@@ -189,6 +189,12 @@ def classify(comp, v, roots=None, sc_roots=None):
         if e1 == e2 and a1 == a2 and b1 != b2 and sc_roots is not None and b in sc_roots:
             return ("short-circuit-assign-leaves-binding-reference",
                     f"'{block['name']}': the binding reference left by a short-circuit assignment travels on (depth {max(b1, b2)} vs {min(b1, b2)} at {pc})")
+        if e1 != e2 and b1 == b2 and a1 == a2 and block["async"] and op in ("MaybeException", "AsyncGeneratorClose") \
+                and any(h["h"] == pc and h["s"] < h["e"] and h["env"] == min(e1, e2) for h in block["handlers"]):
+            # the completion code of an async body is both the landing pad of the body's handler (environment_count of the
+            # function entry) and the fall-through of a body whose lexical scopes are still open
+            return ("async-completion-merges-scope-depths",
+                    f"'{block['name']}': {op}@{pc} is reached with environment depth {max(e1, e2)} by normal completion and {min(e1, e2)} through the async handler")
         if e1 == e2 and b1 == b2 and a1 != a2:
             big = s1 if a1 > a2 else s2
             if leaves_finally(block, big, pc) or (roots is not None and b in roots):
